@@ -493,7 +493,7 @@ func genC07(c *h.Ctx) {
 		}
 	}
 	// (3) random histories
-	for i := 0; i < c.N(6000, 400000); i++ {
+	for i := 0; i < c.N(6000, 250000); i++ {
 		line := c07RandHistory(c, r)
 		c.Add(line, "history", fmt.Sprintf("history:len%02d", len(strings.Fields(line))-1))
 	}
